@@ -1,6 +1,8 @@
 package props
 
 import (
+	corev1 "k8s.io/api/core/v1"
+
 	"encoding/json"
 	"fmt"
 	"sort"
@@ -125,4 +127,65 @@ func c12ConcurrentJobs(tier string) []Job {
 		}})
 	}
 	return jobs
+}
+
+// c12DelAfterPodGoneJob: tear-down does not depend on the pod object: when the pod has been removed from the API server
+// between ADD and DEL (force deletion, garbage collection while kubelet was down), DEL invokes exactly what it invokes while the
+// pod still exists, succeeds, and a repeated DEL invokes nothing.
+func c12DelAfterPodGoneJob() Job {
+	name := "del-after-the-pod-object-is-gone"
+	return Job{Name: name, Weight: 1, Run: func(deadline time.Time) *ScenResult {
+		t0 := time.Now()
+		r := newCaseResult()
+		for _, conf := range c12Confs[:2] {
+			h, err := newCNIHarness(conf)
+			if err != nil {
+				panic(err)
+			}
+			for _, p := range c12Pods {
+				if p.Name == "p-unknown" {
+					continue
+				}
+				if time.Now().After(deadline) {
+					r.exhausted = false
+					break
+				}
+				run := func(gone bool) (codes []int, invs []string) {
+					h.reset()
+					h.putPod(p)
+					c, _ := h.request("ADD", "c1", p.Name, "eth0")
+					codes = append(codes, c)
+					n0 := len(h.invocations())
+					if gone {
+						_ = h.kube.Tracker().Delete(corev1.SchemeGroupVersion.WithResource("pods"), "ns", p.Name)
+					}
+					c, _ = h.request("DEL", "c1", p.Name, "eth0")
+					codes = append(codes, c)
+					n1 := len(h.invocations())
+					c, _ = h.request("DEL", "c1", p.Name, "eth0")
+					codes = append(codes, c)
+					all := h.invocations()
+					for _, inv := range all[n0:n1] {
+						invs = append(invs, invCanon(inv))
+					}
+					if len(all) > n1 {
+						invs = append(invs, fmt.Sprintf("repeated DEL invoked %d plugins", len(all)-n1))
+					}
+					h.putPod(p)
+					return
+				}
+				wantC, wantI := run(false)
+				gotC, gotI := run(true)
+				r.evals++
+				desc := fmt.Sprintf("configuration %v pod %s: ADD, pod object deleted, DEL, DEL", conf, p.Name)
+				r.distinct[hashOf(desc, gotC, gotI)] = true
+				if fmt.Sprint(wantC) != fmt.Sprint(gotC) || strings.Join(wantI, "\n") != strings.Join(gotI, "\n") {
+					r.violate("C12", name, "del", "tear-down-depends-on-the-pod-object", "DEL",
+						fmt.Sprintf("%s: HTTP codes %v, plugins\n  %s\nwith the pod object present: HTTP codes %v, plugins\n  %s", desc, gotC, strings.Join(gotI, "\n  "), wantC, strings.Join(wantI, "\n  ")), []string{desc})
+				}
+			}
+			h.close()
+		}
+		return r.toScen(name, t0, nil)
+	}}
 }
